@@ -1,10 +1,12 @@
 package aof
 
 import (
+	"errors"
 	"fmt"
 	"hash/crc64"
 
 	"go.miragespace.co/specter/kv/aof/proto"
+	"go.miragespace.co/specter/spec/chord"
 
 	bufPool "github.com/libp2p/go-buffer-pool"
 	"go.uber.org/zap"
@@ -32,7 +34,12 @@ func (d *DiskKV) replayLogs() error {
 			return fmt.Errorf("error decoding entry to mutation at index %d: %w", i, err)
 		}
 		if err := d.handleMutation(mut); err != nil {
-			return fmt.Errorf("error apply mutation to memory state at index %d: %w", i, err)
+			// a mutation rejected with a prefix conflict is rolled back right after it was appended;
+			// if the process stopped in between, the entry is still in the log and was a no-op
+			if !errors.Is(err, chord.ErrKVPrefixConflict) {
+				return fmt.Errorf("error apply mutation to memory state at index %d: %w", i, err)
+			}
+			d.logger.Warn("Skipping rejected mutation left in the log", zap.Uint64("index", i), zap.Error(err))
 		}
 		entry.Reset()
 		mut.Reset()
